@@ -69,6 +69,9 @@ def rand_prop(rng, cnt, depth):
 
 
 def rand_dep(rng, cnt):
+    if rng.random() < 0.35:
+        # the same library in several places / in two versions
+        return {"k": "dep", "name": rng.choice(["shared", "lib2"]), "version": rng.choice(["1.0", "2.0"]), "script": [{"src": "x.js"}]}
     return {"k": "dep", "name": "dep%d" % cnt.next(), "version": "1.0", "script": [{"src": "x.js"}]}
 
 
